@@ -222,4 +222,31 @@ example :
     check colorDefs 5 (.collReferenced ['t', 'S'] none) (.list [.str ['a'], .str ['b']]) =
       .list [.str ['a'], .str ['b']] := by decide
 
+/-! ## the type reference of a variable (repairs of the findings F60-typeref-white-space, F61-any-typed-input) -/
+
+/-- White space around the `typeRef` of a variable is not a part of the type name: the closure
+`build_variable_evaluator` builds is the one of the reference without it (`Variable::try_from` trims,
+`mod.rs:138`) — `typeRef=" number "` is the type `number`, `typeRef=" tPerson "` the item definition
+`tPerson`. -/
+theorem type_ref_white_space_ignored (pre r post : Name) (hpre : pre.all isWs = true)
+    (hpost : post.all isWs = true) :
+    VarType.ofRef (some (pre ++ r ++ post)) = VarType.ofRef (some r) := by
+  simp only [VarType.ofRef, trim_white_space pre r post hpre hpost]
+
+example : VarType.ofRef (some " number ".toList) = .simple .number := by decide
+example : VarType.ofRef (some " tPerson\n".toList) = .named "tPerson".toList := by decide
+
+/-- Input data declared with the type `Any` (with or without white space around the name): every
+supplied value conforms and reaches the decision logic unchanged. -/
+theorem any_typed_input_unchanged (defs : Defs) (fuel : Nat) (name : Name) (es : List (Name × DTValue))
+    (v : DTValue) (hv : ctxGet name es = some v) (pre post : Name) (hpre : pre.all isWs = true)
+    (hpost : post.all isWs = true) :
+    varCheck defs fuel name (VarType.ofRef (some (pre ++ "Any".toList ++ post))) (.ctx es) = v := by
+  rw [type_ref_white_space_ignored pre _ post hpre hpost]
+  have : VarType.ofRef (some "Any".toList) = .none := by decide
+  rw [this]
+  simp [varCheck, hv]
+
+example : varCheck [] 5 ['z'] (VarType.ofRef (some " Any".toList)) (.ctx [(['z'], .num 7)]) = .num 7 := by decide
+
 end Dmn.ID
